@@ -35,7 +35,7 @@ var (
 		"b._dns-sd._udp.local", "ytimg.com", "cloudflare.com", "office.com", "zoom.us", "reddit.com", "e.co", "m.me", "l.de", "yt.be", "o2.co.uk", "c.cc", "z.cn", "r.mail.ru"}
 	c12Uids      = []string{"S", "H", "zz", "free", "bad!", "neg", "UP", "hi8", "dot", "00"}
 	c12Bodies    = []string{"none", "short", "hdr", "hdr+uid", "valid", "valid-trunc", "valid-mut", "codec", "garbage8", "max"}
-	c12FragSizes = []uint32{0, 1, 2, 100, 1200, 8192, 65535, 65536, 1 << 24, 1 << 28, 0xFFFFFFFF, 0xFFFFFFFE}
+	c12FragSizes = []uint32{0, 1, 2, 100, 1200, 8192, 65535, 65536, 1 << 21, 1 << 24, 1 << 28, 0xFFFFFFFF, 0xFFFFFFFE}
 )
 
 type c12Spec struct {
